@@ -305,6 +305,18 @@ var discardTable = map[string]string{
 	"(*Context).Cbrt -> (*Context).goError":                "kept: res,err both used",
 }
 
+// partialDropOK: (function -> callee) pairs whose flags are deliberately left out of some returns.
+var partialDropOK = map[string]string{
+	"(*Context).Cbrt -> (*Context).round": "the exact-cube return deliberately reports no flags (C11.R2 checks its guard)",
+}
+
+// alwaysPropagated: the flag producers whose result describes the value just stored in the destination;
+// it must be part of the Condition of every later non-error return (helpers returning (set, res, err)
+// triples are consumed under their own `set` test and are not listed).
+var alwaysPropagated = map[string]bool{
+	"(*Decimal).setExponent": true, "(Rounder).Round": true, "(*Context).round": true, "(*Context).quantize": true,
+}
+
 func (w *World) condResultIndex(f *ssa.Function) int {
 	res := f.Signature.Results()
 	for i := 0; i < res.Len(); i++ {
@@ -364,6 +376,7 @@ func ruleNoFlagDropped(w *World, r *RuleResult) {
 				continue
 			}
 			used := false
+			dropAt := ""
 			if val != nil {
 				used = flowsTo(val, func(user ssa.Instruction, op ssa.Value) bool {
 					switch u := user.(type) {
@@ -385,9 +398,39 @@ func ruleNoFlagDropped(w *World, r *RuleResult) {
 					return false
 				}, through)
 			}
+			// stronger, per return: in a function that itself returns a Condition, every non-error return
+			// reachable from the call delivers an expression that still contains the call's flags
+			if used && val != nil && w.condResultIndex(f) >= 0 && discardTable[base] == "" && partialDropOK[base] == "" && alwaysPropagated[gn] {
+				fi := w.condResultIndex(f)
+				for _, b := range f.Blocks {
+					rt, isRet := b.Instrs[len(b.Instrs)-1].(*ssa.Return)
+					if !isRet || fi >= len(rt.Results) || w.isErrorReturn(rt) {
+						continue
+					}
+					if !(b == call.Block() || reaches(call.Block(), b)) {
+						continue
+					}
+					if !call.Block().Dominates(b) {
+						continue // the return is also reachable without the call: its φ decides (not handled)
+					}
+					found := false
+					w.exprOf(f, rt.Results[fi]).walk(func(x *Expr) bool {
+						if x.V == val || x.V == ssa.Value(call) {
+							found = true
+						}
+						return !found
+					})
+					if !found {
+						used = false
+						dropAt = w.instrPos(rt)
+					}
+				}
+			}
 			switch {
 			case used:
 				r.ok(key, w.instrPos(call), "result flags flow to the returned Condition / ErrDecimal.Flags / a test", true)
+			case dropAt != "":
+				r.bad(key, w.instrPos(call), "the Condition returned by "+gn+" does not reach the Condition delivered by the return at "+dropAt+" (overwritten or left out on that path)")
 			case discardTable[base] != "":
 				r.ok(key, w.instrPos(call), "tabled discard: "+discardTable[base], false)
 			default:
